@@ -174,8 +174,8 @@ theorem ms_encode_ret_le_out (n fs fsz vbr bitrate rateSum maxData : Int) (xs : 
 /-- **Per-stream floors.**  For every layout the create functions admit (`MsLayoutOk`), every legal frame size and
     every bit-rate setting the ctl admits for `nch ≥ nb_streams + nb_coupled` input channels (AUTO, MAX,
     500·nch … 300000·nch): every stream's rate is ≥ 500 b/s; in the surround / plain allocation a coupled stream gets
-    ≥ 2·channel_offset ≥ 4000 b/s and every other non-LFE stream ≥ channel_offset ≥ 2000 b/s (so the floor of :794 only
-    ever acts on the LFE stream); in the ambisonics allocation all streams get the same rate.  Hence each stream's
+    ≥ 2·channel_offset ≥ 4000 b/s and every other non-LFE stream ≥ channel_offset ≥ 2000 b/s; in the ambisonics allocation all streams get the same rate; and
+    the floor `rate[i] = IMAX(rate[i], 500)` of :794 never changes a rate (dead code: also the LFE stream is already ≥ 500).  Hence each stream's
     `OPUS_SET_BITRATE(bitrates[s])` is accepted and stores a value inside that encoder's range 500 … 300000·channels. -/
 theorem ms_rate_floor (l : MsLayout) (hl : MsLayoutOk l) (fs fsz nch br : Int)
     (hfs : fs = 8000 ∨ fs = 12000 ∨ fs = 16000 ∨ fs = 24000 ∨ fs = 48000) (hleg : legalFrame fs fsz = true)
@@ -184,15 +184,22 @@ theorem ms_rate_floor (l : MsLayout) (hl : MsLayoutOk l) (fs fsz nch br : Int)
     (l.ambisonics = false → i < l.nbCoupled → 4000 ≤ msRate l fs fsz br i) ∧
     (l.ambisonics = false → l.nbCoupled ≤ i → i ≠ l.lfeStream → 2000 ≤ msRate l fs fsz br i) ∧
     (l.ambisonics = true → msRate l fs fsz br i = msRate l fs fsz br 0) ∧
+    (0 ≤ i → msRate l fs fsz br i = msRateRaw l fs fsz br i) ∧
     (∃ v, msStreamUserBitrate l fs fsz br i = some v ∧ 500 ≤ v ∧ v ≤ 300000 * (if i < l.nbCoupled then 2 else 1)) := by
   have h500 : 500 ≤ msRate l fs fsz br i := by unfold msRate; omega
-  refine ⟨h500, ?_, ?_, ?_, ?_⟩
+  refine ⟨h500, ?_, ?_, ?_, ?_, ?_⟩
   · intro ha hi
     exact ((msSur_floor l fs fsz nch br (surIn_of l hl fs fsz nch br hfs hleg hn1 hn2 hbr) ha i).2.1 hi).2
   · intro ha hi hlf
     exact ((msSur_floor l fs fsz nch br (surIn_of l hl fs fsz nch br hfs hleg hn1 hn2 hbr) ha i).2.2 hi hlf).2
   · intro ha
     rw [msRate_ambi l fs fsz br i ha, msRate_ambi l fs fsz br 0 ha]
+  · intro hi
+    by_cases ha : l.ambisonics = true
+    · obtain ⟨-, -, -, -, -, q1, q2⟩ := legal_rate fs fsz hfs hleg
+      exact msAmbi_floor_inactive l hl fs fsz nch br ha (by omega) (by omega) q1 q2 hn1 hn2 hbr i
+    · have ha' : l.ambisonics = false := by cases h : l.ambisonics <;> simp_all
+      exact msSur_floor_inactive l fs fsz nch br (surIn_of l hl fs fsz nch br hfs hleg hn1 hn2 hbr) ha' i hi
   · obtain ⟨v, h1, h2, h3, -⟩ := msStream_ctl l fs fsz br i h500
     exact ⟨v, h1, h2, h3⟩
 
